@@ -58,7 +58,7 @@ theorem exists_strip_decomp (d n : Nat) (hd : 1 < d) (hn : 0 < n) :
       rw [hqe, pow_succ]; ring
     · exact ⟨n, 0, hn, h, by simp⟩
 
-theorem strip_spec (d n : Nat) (hd : 1 < d) (hn : 0 < n) :
+theorem strip_prop (d n : Nat) (hd : 1 < d) (hn : 0 < n) :
     n = (strip d n).1 * d ^ (strip d n).2 ∧ ¬ d ∣ (strip d n).1 ∧ 0 < (strip d n).1 := by
   obtain ⟨m, k, hm, hnd, rfl⟩ := exists_strip_decomp d n hd hn
   rw [strip_eq d hd m k hm hnd]
@@ -403,5 +403,612 @@ theorem one_le_total (h : f.WF) (h2 : 2 ≤ f.n) : 1 ≤ f.total := by
 
 end PrimeFactors.WF
 
+
+/-! ### `partition_factors` -/
+
+theorem foldl_mul_pow (l : List PrimeFactor) (a : Nat) :
+    l.foldl (fun acc x => acc * x.value ^ x.count) a = a * prodOf l := by
+  induction l generalizing a with
+  | nil => simp
+  | cons x l ih => simp [ih, Nat.mul_assoc]
+
+/-- halve every exponent -/
+def halve (l : List PrimeFactor) : List PrimeFactor := l.map (fun x => (⟨x.value, x.count / 2⟩ : PrimeFactor))
+
+theorem halve_prod (l : List PrimeFactor) (he : ∀ x ∈ l, x.count % 2 = 0) :
+    prodOf (halve l) * prodOf (halve l) = prodOf l := by
+  induction l with
+  | nil => simp [halve]
+  | cons x l ih =>
+    have hx := he x (List.mem_cons_self ..)
+    have ih' := ih (fun y hy => he y (List.mem_cons_of_mem _ hy))
+    simp only [halve, List.map_cons, prodOf_cons] at ih' ⊢
+    have : x.value ^ x.count = x.value ^ (x.count / 2) * x.value ^ (x.count / 2) := by
+      rw [← pow_add]; congr 1; omega
+    rw [this, ← ih']; ring
+
+theorem halve_sum (l : List PrimeFactor) (he : ∀ x ∈ l, x.count % 2 = 0) :
+    sumCounts (halve l) * 2 = sumCounts l := by
+  induction l with
+  | nil => simp [halve]
+  | cons x l ih =>
+    have hx := he x (List.mem_cons_self ..)
+    have ih' := ih (fun y hy => he y (List.mem_cons_of_mem _ hy))
+    simp only [halve, List.map_cons, sumCounts_cons] at ih' ⊢
+    omega
+
+theorem halve_good (l : List PrimeFactor) (he : ∀ x ∈ l, x.count % 2 = 0) (hg : GoodEntries l) :
+    GoodEntries (halve l) := by
+  intro y hy
+  simp only [halve, List.mem_map] at hy
+  obtain ⟨x, hx, rfl⟩ := hy
+  have h1 := he x hx
+  have h2 := hg x hx
+  exact ⟨by simp only; omega, h2.2.1, h2.2.2⟩
+
+theorem halve_sorted (l : List PrimeFactor) (hs : l.Pairwise (fun a b => a.value < b.value)) :
+    (halve l).Pairwise (fun a b => a.value < b.value) := by
+  unfold halve
+  rw [List.pairwise_map]
+  exact hs
+
+theorem greedySplit_spec (l : List PrimeFactor) (hg : GoodEntries l) :
+    ∀ a b, (PrimeFactors.greedySplit l a b).1 * (PrimeFactors.greedySplit l a b).2 = a * b * prodOf l ∧
+      a ≤ (PrimeFactors.greedySplit l a b).1 ∧ b ≤ (PrimeFactors.greedySplit l a b).2 := by
+  induction l with
+  | nil => intro a b; simp [PrimeFactors.greedySplit]
+  | cons x l ih =>
+    intro a b
+    have hx := hg x (List.mem_cons_self ..)
+    have hpos : 0 < x.value ^ x.count := Nat.pow_pos (by omega)
+    simp only [PrimeFactors.greedySplit, prodOf_cons]
+    split
+    · obtain ⟨h1, h2, h3⟩ := ih hg.tail (a * x.value ^ x.count) b
+      refine ⟨by rw [h1]; ring, le_trans (Nat.le_mul_of_pos_right a hpos) h2, h3⟩
+    · obtain ⟨h1, h2, h3⟩ := ih hg.tail a (b * x.value ^ x.count)
+      refine ⟨by rw [h1]; ring, h2, le_trans (Nat.le_mul_of_pos_right b hpos) h3⟩
+
+/-- the two products of the third branch of `partition_factors` -/
+def splitLR (f : PrimeFactors) : Nat × Nat :=
+  let (l, r) := PrimeFactors.greedySplit f.others 1 1
+  let (l, r) := if l ≤ r then (l * 2 ^ f.p2, r) else (l, r * 2 ^ f.p2)
+  if f.p3 > 0 ∧ l ≤ r then (l * 3 ^ f.p3, r) else (l, r * 3 ^ f.p3)
+
+theorem lt_mul_pos' {a b : Nat} (ha : 1 < a) (hb : 0 < b) : 1 < a * b :=
+  lt_of_lt_of_le ha (Nat.le_mul_of_pos_right a hb)
+
+theorem splitLR_spec (f : PrimeFactors) (h : f.WF) (hd : f.distinct ≠ 1)
+    (hne : ¬ (f.p2 % 2 = 0 ∧ f.p3 % 2 = 0 ∧ f.others.all (fun x => x.count % 2 = 0) = true)) :
+    (splitLR f).1 * (splitLR f).2 = f.n ∧ 1 < (splitLR f).1 ∧ 1 < (splitLR f).2 := by
+  have hde := h.distinct_eq
+  have hpe := h.prod_eq
+  have hent := h.entries
+  have h2pos : 0 < 2 ^ f.p2 := Nat.pow_pos (by omega)
+  have h3pos : 0 < 3 ^ f.p3 := Nat.pow_pos (by omega)
+  have h2gt : f.p2 > 0 → 2 ≤ 2 ^ f.p2 := fun hp => Nat.le_self_pow (by omega) 2
+  have h3gt : f.p3 > 0 → 3 ≤ 3 ^ f.p3 := fun hp => Nat.le_self_pow (by omega) 3
+  obtain ⟨g1, g2, g3⟩ := greedySplit_spec f.others hent 1 1
+  -- lower bounds on the greedy halves
+  have hL : f.others ≠ [] → 5 ≤ (PrimeFactors.greedySplit f.others 1 1).1 := by
+    intro hne'
+    cases hl : f.others with
+    | nil => exact absurd hl hne'
+    | cons x l =>
+      rw [hl] at hent
+      have hx := hent x (List.mem_cons_self ..)
+      simp only [PrimeFactors.greedySplit, le_refl, if_true]
+      have := (greedySplit_spec l (GoodEntries.tail hent) (1 * x.value ^ x.count) 1).2.1
+      have := five_le_pow hx.2.1 hx.1
+      omega
+  have hR : 2 ≤ f.others.length → 5 ≤ (PrimeFactors.greedySplit f.others 1 1).2 := by
+    intro hlen
+    cases hl : f.others with
+    | nil => rw [hl] at hlen; simp at hlen
+    | cons x l =>
+      cases l with
+      | nil => rw [hl] at hlen; simp at hlen
+      | cons y l =>
+        rw [hl] at hent
+        have hx := hent x (List.mem_cons_self ..)
+        have hy := hent y (List.mem_cons_of_mem _ (List.mem_cons_self ..))
+        have h5x := five_le_pow hx.2.1 hx.1
+        have h5y := five_le_pow hy.2.1 hy.1
+        simp only [PrimeFactors.greedySplit, le_refl, if_true]
+        rw [if_neg (by omega)]
+        have := (greedySplit_spec l (GoodEntries.tail (GoodEntries.tail hent)) (1 * x.value ^ x.count) (1 * y.value ^ y.count)).2.2
+        omega
+  have hR1 : f.others.length = 1 → (PrimeFactors.greedySplit f.others 1 1).2 = 1 := by
+    intro hlen
+    cases hl : f.others with
+    | nil => rw [hl] at hlen; simp at hlen
+    | cons x l =>
+      cases l with
+      | nil => simp [PrimeFactors.greedySplit]
+      | cons y l => rw [hl] at hlen; simp at hlen
+  have hlen0 : f.others.length = 0 → f.p2 > 0 ∧ f.p3 > 0 := by
+    intro h0
+    have hnil : f.others = [] := List.eq_nil_of_length_eq_zero h0
+    by_contra hc
+    have : f.p2 = 0 ∨ f.p3 = 0 := by omega
+    rcases this with h | h
+    · rw [h] at hde
+      by_cases h3 : f.p3 > 0
+      · simp [h3, h0] at hde; exact hd hde
+      · apply hne; rw [hnil]; simp; omega
+    · rw [h] at hde
+      by_cases h2 : f.p2 > 0
+      · simp [h2, h0] at hde; exact hd hde
+      · apply hne; rw [hnil]; simp; omega
+  have hlen1 : f.others.length = 1 → f.p2 > 0 ∨ f.p3 > 0 := by
+    intro h1
+    by_contra hc
+    have h2 : ¬ f.p2 > 0 := by omega
+    have h3 : ¬ f.p3 > 0 := by omega
+    rw [h1] at hde; simp [h2, h3] at hde; exact hd hde
+  have hnil_iff : f.others = [] ↔ f.others.length = 0 := by
+    constructor
+    · intro h; rw [h]; rfl
+    · exact List.eq_nil_of_length_eq_zero
+  unfold splitLR
+  generalize PrimeFactors.greedySplit f.others 1 1 = p at *
+  obtain ⟨L, R⟩ := p
+  simp only at g1 g2 g3 hL hR hR1 ⊢
+  rw [hpe]
+  simp only [Nat.one_mul] at g1
+  rw [← g1]
+  rcases Nat.lt_or_ge f.others.length 2 with hlt | hge
+  · rcases Nat.eq_zero_or_pos f.others.length with h0 | h1
+    · obtain ⟨p2pos, p3pos⟩ := hlen0 h0
+      have := h2gt p2pos; have := h3gt p3pos
+      have hnil := hnil_iff.2 h0
+      rw [hnil] at g1; simp at g1
+      have : L = 1 := by nlinarith
+      have : R = 1 := by nlinarith
+      subst L; subst R
+      simp only [le_refl, if_true, Nat.one_mul]
+      rw [if_neg (by omega)]
+      refine ⟨by simp only; ring, by simp only; omega, by simp only; omega⟩
+    · have h1' : f.others.length = 1 := by omega
+      have hLL := hL (by rw [Ne, hnil_iff]; omega)
+      have hor := hlen1 h1'
+      have hR1' := hR1 h1'
+      subst hR1'
+      have hnle : ¬ L ≤ 1 := by omega
+      simp only [hnle, if_false, Nat.one_mul]
+      split
+      · rename_i hc
+        refine ⟨by simp only; ring, lt_mul_pos' (by omega) h3pos, by simp only; omega⟩
+      · refine ⟨by simp only; ring, by simp only; omega, ?_⟩
+        simp only
+        rcases hor with hp | hp
+        · exact lt_mul_pos' (by have := h2gt hp; omega) h3pos
+        · rw [Nat.mul_comm]; exact lt_mul_pos' (by have := h3gt hp; omega) h2pos
+  · have hLL := hL (by rw [Ne, hnil_iff]; omega)
+    have hRR := hR hge
+    have hL1 : 1 < L := by omega
+    have hR1 : 1 < R := by omega
+    split <;> split <;> refine ⟨by simp only; ring, ?_, ?_⟩ <;> simp only <;>
+      first
+        | omega
+        | exact lt_mul_pos' (lt_mul_pos' hL1 h2pos) h3pos
+        | exact lt_mul_pos' (lt_mul_pos' hR1 h2pos) h3pos
+        | exact lt_mul_pos' hL1 h2pos
+        | exact lt_mul_pos' hR1 h2pos
+        | exact lt_mul_pos' hL1 h3pos
+        | exact lt_mul_pos' hR1 h3pos
+
+
+theorem partition_even (others : List PrimeFactor) (n p2 p3 total distinct : Nat)
+    (h : PrimeFactors.WF ⟨others, n, p2, p3, total, distinct⟩) (h2 : 2 ≤ n)
+    (he2 : p2 % 2 = 0) (he3 : p3 % 2 = 0) (heo : ∀ x ∈ others, x.count % 2 = 0) :
+    let H : PrimeFactors := ⟨halve others, (halve others).foldl (fun acc x => acc * x.value ^ x.count)
+      (2 ^ (p2 / 2) * 3 ^ (p3 / 2)), p2 / 2, p3 / 2, total / 2, distinct⟩
+    H.WF ∧ H.n * H.n = n ∧ 1 < H.n := by
+  intro H
+  obtain ⟨hpos, hpe, hent, hsorted, hte, hde⟩ := h
+  simp only at hpos hpe hent hsorted hte hde
+  have hn : H.n = 2 ^ (p2 / 2) * 3 ^ (p3 / 2) * prodOf (halve others) := foldl_mul_pow _ _
+  have hsq : H.n * H.n = n := by
+    rw [hn, hpe, ← halve_prod others heo]
+    have e2 : 2 ^ p2 = 2 ^ (p2 / 2) * 2 ^ (p2 / 2) := by rw [← pow_add]; congr 1; omega
+    have e3 : 3 ^ p3 = 3 ^ (p3 / 2) * 3 ^ (p3 / 2) := by rw [← pow_add]; congr 1; omega
+    rw [e2, e3]; ring
+  have hHpos : 0 < H.n := by
+    rcases Nat.eq_zero_or_pos H.n with h0 | h0
+    · rw [h0] at hsq; omega
+    · exact h0
+  have hsum := halve_sum others heo
+  refine ⟨⟨hHpos, hn, halve_good others heo hent, halve_sorted others hsorted, ?_, ?_⟩, hsq, ?_⟩
+  · show total / 2 = p2 / 2 + p3 / 2 + sumCounts (halve others)
+    omega
+  · show distinct = (if p2 / 2 > 0 then 1 else 0) + (if p3 / 2 > 0 then 1 else 0) + (halve others).length
+    rw [hde]; simp only [halve, List.length_map]
+    have a2 : p2 / 2 > 0 ↔ p2 > 0 := by omega
+    have a3 : p3 / 2 > 0 ↔ p3 > 0 := by omega
+    simp only [a2, a3]
+  · by_contra hc
+    have h1 : H.n = 1 := by omega
+    rw [h1] at hsq
+    omega
+
+
+theorem all_even_iff (l : List PrimeFactor) :
+    l.all (fun x => x.count % 2 = 0) = true ↔ ∀ x ∈ l, x.count % 2 = 0 := by
+  simp [List.all_eq_true]
+
+theorem partition_single (f : PrimeFactors) (h : f.WF) (htot : 2 ≤ f.total) (hd1 : f.distinct = 1) :
+    ∃ l r, (match f.others with
+    | first :: rest =>
+      if first.count ≤ 1 then .error "partition_factors: assert!(first_factor.count > 1)" else
+      let hc := first.count / 2
+      let sc := first.count - hc
+      let half : PrimeFactors := { others := [⟨first.value, hc⟩], n := first.value ^ hc, p2 := f.p2 / 2, p3 := f.p3 / 2,
+                                   total := f.total / 2, distinct := 1 }
+      let self' : PrimeFactors := { others := ⟨first.value, sc⟩ :: rest, n := first.value ^ sc, p2 := f.p2 - f.p2 / 2, p3 := f.p3 - f.p3 / 2,
+                                    total := f.total - f.total / 2, distinct := f.distinct }
+      .ok (self', half)
+    | [] =>
+      if f.p2 / 2 > 0 then
+        .ok ({ others := [], n := 2 ^ (f.p2 - f.p2 / 2), p2 := f.p2 - f.p2 / 2, p3 := f.p3 - f.p3 / 2, total := f.total - f.total / 2, distinct := f.distinct },
+             { others := [], n := 2 ^ (f.p2 / 2), p2 := f.p2 / 2, p3 := f.p3 / 2, total := f.total / 2, distinct := 1 })
+      else if f.p3 / 2 > 0 then
+        .ok ({ others := [], n := 3 ^ (f.p3 - f.p3 / 2), p2 := f.p2 - f.p2 / 2, p3 := f.p3 - f.p3 / 2, total := f.total - f.total / 2, distinct := f.distinct },
+             { others := [], n := 3 ^ (f.p3 / 2), p2 := f.p2 / 2, p3 := f.p3 / 2, total := f.total / 2, distinct := 1 })
+      else
+        .ok ({ others := [], n := f.n, p2 := f.p2 - f.p2 / 2, p3 := f.p3 - f.p3 / 2, total := f.total - f.total / 2, distinct := f.distinct },
+             { others := [], n := f.n, p2 := f.p2 / 2, p3 := f.p3 / 2, total := f.total / 2, distinct := 1 }) : Except String (PrimeFactors × PrimeFactors))
+      = .ok (l, r) ∧ l.WF ∧ r.WF ∧ l.n * r.n = f.n ∧ 1 < l.n ∧ 1 < r.n := by
+  rcases f with ⟨others, n, p2, p3, total, distinct⟩
+  obtain ⟨hpos, hpe, hent, hsorted, hte, hde⟩ := h
+  simp only at hpos hpe hent hsorted hte hde htot hd1 ⊢
+  subst hd1
+  cases others with
+  | cons first rest =>
+    simp only
+    have hx := hent first (List.mem_cons_self ..)
+    have hp2 : p2 = 0 := by
+      by_contra hc; rw [if_pos (by omega)] at hde; simp at hde; omega
+    have hp3 : p3 = 0 := by
+      by_contra hc; rw [if_pos (by omega : p3 > 0)] at hde; simp at hde; omega
+    subst hp2; subst hp3
+    have hrest : rest = [] := by
+      simp at hde; exact hde
+    subst hrest
+    simp at hte hpe
+    rw [if_neg (by omega)]
+    have hv1 : ∀ k, 1 ≤ k → 1 < first.value ^ k := fun k hk => by
+      have := five_le_pow hx.2.1 hk; omega
+    refine ⟨_, _, rfl, ⟨?_, ?_, ?_, ?_, ?_, ?_⟩, ⟨?_, ?_, ?_, ?_, ?_, ?_⟩, ?_, ?_, ?_⟩
+    · exact Nat.pow_pos (by omega)
+    · simp
+    · intro x hx'; simp at hx'; subst hx'; exact ⟨by simp only; omega, hx.2.1, hx.2.2⟩
+    · simp
+    · simp; omega
+    · simp
+    · exact Nat.pow_pos (by omega)
+    · simp
+    · intro x hx'; simp at hx'; subst hx'; exact ⟨by simp only; omega, hx.2.1, hx.2.2⟩
+    · simp
+    · simp; omega
+    · simp
+    · simp only; rw [hpe, ← pow_add]; congr 1; omega
+    · exact hv1 _ (by omega)
+    · exact hv1 _ (by omega)
+  | nil =>
+    simp at hte hpe hde
+    simp only
+    by_cases c2 : p2 / 2 > 0
+    · rw [if_pos c2]
+      have hp3 : p3 = 0 := by
+        by_contra hc; rw [if_pos (by omega : 0 < p2), if_pos (by omega : 0 < p3)] at hde; omega
+      subst hp3
+      simp at hpe hte
+      refine ⟨_, _, rfl, ⟨?_, ?_, ?_, ?_, ?_, ?_⟩, ⟨?_, ?_, ?_, ?_, ?_, ?_⟩, ?_, ?_, ?_⟩
+      · exact Nat.pow_pos (by omega)
+      · simp
+      · simp
+      · simp
+      · simp; omega
+      · simp; omega
+      · exact Nat.pow_pos (by omega)
+      · simp
+      · simp
+      · simp
+      · simp; omega
+      · simp; omega
+      · simp only; rw [hpe, ← pow_add]; congr 1; omega
+      · exact Nat.one_lt_two_pow (by omega)
+      · exact Nat.one_lt_two_pow (by omega)
+    · rw [if_neg c2]
+      by_cases c3 : p3 / 2 > 0
+      · rw [if_pos c3]
+        have hp2 : p2 = 0 := by
+          by_contra hc; rw [if_pos (by omega : 0 < p2), if_pos (by omega : 0 < p3)] at hde; omega
+        subst hp2
+        simp at hpe hte
+        refine ⟨_, _, rfl, ⟨?_, ?_, ?_, ?_, ?_, ?_⟩, ⟨?_, ?_, ?_, ?_, ?_, ?_⟩, ?_, ?_, ?_⟩
+        · exact Nat.pow_pos (by omega)
+        · simp
+        · simp
+        · simp
+        · simp; omega
+        · simp; omega
+        · exact Nat.pow_pos (by omega)
+        · simp
+        · simp
+        · simp
+        · simp; omega
+        · simp; omega
+        · simp only; rw [hpe, ← pow_add]; congr 1; omega
+        · exact Nat.one_lt_pow (by omega) (by omega)
+        · exact Nat.one_lt_pow (by omega) (by omega)
+      · exfalso
+        have : p2 ≤ 1 := by omega
+        have : p3 ≤ 1 := by omega
+        by_cases q2 : 0 < p2 <;> by_cases q3 : 0 < p3 <;> simp [q2, q3] at hde <;> omega
+
+theorem partition_spec (f : PrimeFactors) (h : f.WF) (hnp : f.isPrime = false) (h2 : 2 ≤ f.n) :
+    ∃ l r, f.partition = .ok (l, r) ∧ l.WF ∧ r.WF ∧ l.n * r.n = f.n ∧ 1 < l.n ∧ 1 < r.n := by
+  have htot1 := h.one_le_total h2
+  have htot : 2 ≤ f.total := by
+    have : f.total ≠ 1 := by
+      intro h1; simp [PrimeFactors.isPrime, h1] at hnp
+    omega
+  unfold PrimeFactors.partition
+  simp only [hnp, Bool.false_eq_true, if_false]
+  by_cases heven : f.p2 % 2 = 0 ∧ f.p3 % 2 = 0 ∧ f.others.all (fun x => x.count % 2 = 0) = true
+  · rw [if_pos heven]
+    obtain ⟨he2, he3, heo⟩ := heven
+    rw [all_even_iff] at heo
+    rcases f with ⟨others, n, p2, p3, total, distinct⟩
+    obtain ⟨w1, w2, w3⟩ := partition_even others n p2 p3 total distinct h h2 he2 he3 heo
+    exact ⟨_, _, rfl, w1, w1, w2, w3, w3⟩
+  · rw [if_neg heven]
+    by_cases hd1 : f.distinct = 1
+    · rw [if_pos hd1]
+      exact partition_single f h htot hd1
+    · rw [if_neg hd1]
+      obtain ⟨s1, s2, s3⟩ := splitLR_spec f h hd1 heven
+      obtain ⟨a, ha, hawf, han, _⟩ := compute_spec (splitLR f).1 (by omega)
+      obtain ⟨b, hb, hbwf, hbn, _⟩ := compute_spec (splitLR f).2 (by omega)
+      refine ⟨a, b, ?_, hawf, hbwf, by rw [han, hbn, s1], by omega, by omega⟩
+      change (match PrimeFactors.compute (splitLR f).1, PrimeFactors.compute (splitLR f).2 with
+        | .ok a, .ok b => Except.ok (a, b)
+        | .error e, _ => .error e
+        | _, .error e => .error e) = _
+      rw [ha, hb]
+
+
+/-! ### `productAbove`, `hasFactorsGt`, smoothness -/
+
+theorem foldl_mul_eq_prod (l : List Nat) (a : Nat) : l.foldl (· * ·) a = a * l.prod := by
+  induction l generalizing a with
+  | nil => simp
+  | cons x l ih => simp [ih, Nat.mul_assoc]
+
+theorem mem_takeWhile_true {α} (p : α → Bool) (l : List α) : ∀ x ∈ l.takeWhile p, p x = true := by
+  have := List.all_takeWhile (p := p) (l := l)
+  rwa [List.all_eq_true] at this
+
+theorem entry_dvd_prodOf (l : List PrimeFactor) (x : PrimeFactor) (hx : x ∈ l) :
+    x.value ^ x.count ∣ prodOf l := by
+  induction l with
+  | nil => simp at hx
+  | cons y l ih =>
+    rw [prodOf_cons]
+    rcases List.mem_cons.1 hx with rfl | hx
+    · exact Dvd.intro _ rfl
+    · exact Dvd.dvd.mul_left (ih hx) _
+
+theorem two_le_mul3 {a b c : Nat} (ha : 0 < a) (hb : 0 < b) (hc : 0 < c)
+    (h : 2 ≤ a ∨ 2 ≤ b ∨ 2 ≤ c) : 2 ≤ a * b * c := by
+  have hab : 0 < a * b := Nat.mul_pos ha hb
+  rcases h with h | h | h
+  · exact le_trans h (le_trans (Nat.le_mul_of_pos_right a hb) (Nat.le_mul_of_pos_right _ hc))
+  · exact le_trans h (le_trans (Nat.le_mul_of_pos_left b ha) (Nat.le_mul_of_pos_right _ hc))
+  · exact le_trans h (Nat.le_mul_of_pos_left c hab)
+
+theorem productAbove_eq (f : PrimeFactors) (k : Nat) :
+    f.productAbove k = prodOf (f.others.dropWhile (fun x => x.value ≤ k)) := by
+  unfold PrimeFactors.productAbove prodOf
+  rw [foldl_mul_eq_prod, Nat.one_mul]
+
+theorem prodOf_takeWhile_dropWhile (p : PrimeFactor → Bool) (l : List PrimeFactor) :
+    prodOf (l.takeWhile p) * prodOf (l.dropWhile p) = prodOf l := by
+  rw [← prodOf_append, List.takeWhile_append_dropWhile]
+
+/-- `m` has no prime factor other than 2, 3, 5, 7 -/
+def Smooth7 (m : Nat) : Prop := ∃ k, m ∣ 210 ^ k
+
+theorem Smooth7.of_dvd {a b : Nat} (h : Smooth7 b) (hd : a ∣ b) : Smooth7 a := by
+  obtain ⟨k, hk⟩ := h; exact ⟨k, dvd_trans hd hk⟩
+
+theorem Smooth7.mul {a b : Nat} (ha : Smooth7 a) (hb : Smooth7 b) : Smooth7 (a * b) := by
+  obtain ⟨k, hk⟩ := ha; obtain ⟨j, hj⟩ := hb
+  exact ⟨k + j, by rw [pow_add]; exact Nat.mul_dvd_mul hk hj⟩
+
+theorem Smooth7.one : Smooth7 1 := ⟨0, by simp⟩
+
+theorem Smooth7.pow_of_dvd {v : Nat} (hv : v ∣ 210) (c : Nat) : Smooth7 (v ^ c) :=
+  ⟨c, pow_dvd_pow_of_dvd hv c⟩
+
+theorem five_or_seven {v : Nat} (h5 : 5 ≤ v) (h7 : v ≤ 7) (hp : Nat.Prime v) : v = 5 ∨ v = 7 := by
+  have : v ≠ 6 := by rintro rfl; revert hp; decide
+  omega
+
+theorem prodOf_smooth (l : List PrimeFactor) (hg : GoodEntries l) (hle : ∀ x ∈ l, x.value ≤ 7) :
+    Smooth7 (prodOf l) := by
+  induction l with
+  | nil => exact Smooth7.one
+  | cons x l ih =>
+    have hx := hg x (List.mem_cons_self ..)
+    have h7 := hle x (List.mem_cons_self ..)
+    rw [prodOf_cons]
+    refine Smooth7.mul ?_ (ih hg.tail (fun y hy => hle y (List.mem_cons_of_mem _ hy)))
+    rcases five_or_seven hx.2.1 h7 hx.2.2 with h | h <;> rw [h] <;>
+      exact Smooth7.pow_of_dvd (by decide) _
+
+theorem pow2_of_smooth {c : Nat} (hs : Smooth7 c) (h3 : ¬ 3 ∣ c) (h5 : ¬ 5 ∣ c) (h7 : ¬ 7 ∣ c) :
+    ∃ j, c = 2 ^ j := by
+  obtain ⟨k, hk⟩ := hs
+  have e : 210 ^ k = 2 ^ k * 105 ^ k := by rw [← Nat.mul_pow]
+  rw [e] at hk
+  have c3 : Nat.Coprime c 3 := (Nat.Coprime.symm ((Nat.Prime.coprime_iff_not_dvd Nat.prime_three).2 h3))
+  have c5 : Nat.Coprime c 5 := (Nat.Coprime.symm ((Nat.Prime.coprime_iff_not_dvd Nat.prime_five).2 h5))
+  have c7 : Nat.Coprime c 7 := (Nat.Coprime.symm ((Nat.Prime.coprime_iff_not_dvd (by decide : Nat.Prime 7)).2 h7))
+  have c105 : Nat.Coprime c 105 := by
+    have : (105 : Nat) = 3 * 5 * 7 := by norm_num
+    rw [this]; exact Nat.Coprime.mul_right (Nat.Coprime.mul_right c3 c5) c7
+  have hd : c ∣ 2 ^ k := Nat.Coprime.dvd_of_dvd_mul_right (Nat.Coprime.pow_right k c105) hk
+  obtain ⟨j, _, hj⟩ := (Nat.dvd_prime_pow Nat.prime_two).1 hd
+  exact ⟨j, hj⟩
+
+theorem sorted_le_last (l : List PrimeFactor) (hs : l.Pairwise (fun a b => a.value < b.value))
+    (z : PrimeFactor) (hz : l.getLast? = some z) : ∀ x ∈ l, x.value ≤ z.value := by
+  obtain ⟨ys, rfl⟩ := List.getLast?_eq_some_iff.1 hz
+  rw [List.pairwise_append] at hs
+  intro x hx
+  rcases List.mem_append.1 hx with hx | hx
+  · exact Nat.le_of_lt (hs.2.2 x hx z (by simp))
+  · simp at hx; subst hx; exact le_refl _
+
+namespace PrimeFactors.WF
+variable {f : PrimeFactors}
+
+theorem all_le_of_not_gt (h : f.WF) (k : Nat) (hk : 3 ≤ k) (hgt : f.hasFactorsGt k = false) :
+    ∀ x ∈ f.others, x.value ≤ k := by
+  unfold PrimeFactors.hasFactorsGt at hgt
+  have a1 : ¬ k < 2 := by omega
+  have a2 : ¬ k < 3 := by omega
+  simp only [a1, a2, decide_false, Bool.false_and, Bool.false_or] at hgt
+  cases hl : f.others.getLast? with
+  | none =>
+    rw [List.getLast?_eq_none_iff] at hl
+    rw [hl]; simp
+  | some z =>
+    rw [hl] at hgt
+    simp only [decide_eq_false_iff_not] at hgt
+    intro x hx
+    have := sorted_le_last f.others h.sorted z hl x hx
+    omega
+
+theorem pow23_dvd (h : f.WF) {a c : Nat} (ha : a ≤ f.p2) (hc : c ≤ f.p3) : 2 ^ a * 3 ^ c ∣ f.n := by
+  rw [h.prod_eq]
+  exact Dvd.dvd.mul_right (Nat.mul_dvd_mul (pow_dvd_pow 2 ha) (pow_dvd_pow 3 hc)) _
+
+theorem entry_dvd (h : f.WF) {x : PrimeFactor} (hx : x ∈ f.others) : x.value ^ x.count ∣ f.n := by
+  rw [h.prod_eq]
+  exact Dvd.dvd.mul_left (entry_dvd_prodOf _ x hx) _
+
+theorem smooth_of_all_le (h : f.WF) (hle : ∀ x ∈ f.others, x.value ≤ 7) : Smooth7 f.n := by
+  rw [h.prod_eq]
+  exact Smooth7.mul (Smooth7.mul (Smooth7.pow_of_dvd (by decide) _) (Smooth7.pow_of_dvd (by decide) _))
+    (prodOf_smooth _ h.entries hle)
+
+/-- the cofactor of `productAbove 7` -/
+theorem productAbove_split (h : f.WF) :
+    f.n = (2 ^ f.p2 * 3 ^ f.p3 * prodOf (f.others.takeWhile (fun x => x.value ≤ 7))) * f.productAbove 7 := by
+  rw [productAbove_eq, Nat.mul_assoc, prodOf_takeWhile_dropWhile, ← h.prod_eq]
+
+theorem cofactor_smooth (h : f.WF) :
+    Smooth7 (2 ^ f.p2 * 3 ^ f.p3 * prodOf (f.others.takeWhile (fun x => x.value ≤ 7))) := by
+  refine Smooth7.mul (Smooth7.mul (Smooth7.pow_of_dvd (by decide) _) (Smooth7.pow_of_dvd (by decide) _))
+    (prodOf_smooth _ ?_ ?_)
+  · intro x hx; exact h.entries x ((List.takeWhile_sublist _).subset hx)
+  · intro x hx; simpa using mem_takeWhile_true _ _ x hx
+
+theorem cofactor_ge_two (h : f.WF) (hleq : f.hasFactorsLeq 7 = true) :
+    2 ≤ 2 ^ f.p2 * 3 ^ f.p3 * prodOf (f.others.takeWhile (fun x => x.value ≤ 7)) := by
+  have h2pos : 0 < 2 ^ f.p2 := Nat.pow_pos (by omega)
+  have h3pos : 0 < 3 ^ f.p3 := Nat.pow_pos (by omega)
+  have hg : GoodEntries (f.others.takeWhile (fun x => x.value ≤ 7)) :=
+    fun x hx => h.entries x ((List.takeWhile_sublist _).subset hx)
+  have hPpos := prodOf_pos _ hg
+  unfold PrimeFactors.hasFactorsLeq at hleq
+  simp only [Bool.or_eq_true, decide_eq_true_eq] at hleq
+  apply two_le_mul3 h2pos h3pos hPpos
+  rcases hleq with (hp | hp) | hp
+  · exact Or.inl (Nat.le_self_pow (by omega) 2)
+  · exact Or.inr (Or.inl (le_trans (by omega) (Nat.le_self_pow (by omega : f.p3 ≠ 0) 3)))
+  · refine Or.inr (Or.inr ?_)
+    cases hl : f.others with
+    | nil => rw [hl] at hp; simp at hp
+    | cons x l =>
+      rw [hl] at hp hg; simp at hp
+      have : 5 ≤ prodOf (List.takeWhile (fun x => decide (x.value ≤ 7)) (x :: l)) := by
+        apply five_le_prodOf _ hg
+        rw [List.takeWhile_cons_of_pos (by simpa using hp)]
+        simp
+      omega
+
+end PrimeFactors.WF
+
+/-! ### `remove_factors(2, ·)` and trailing zeros -/
+
+theorem not_two_dvd_prodOf (l : List PrimeFactor) (hg : GoodEntries l) : ¬ 2 ∣ prodOf l := by
+  induction l with
+  | nil => simp
+  | cons x l ih =>
+    have hx := hg x (List.mem_cons_self ..)
+    rw [prodOf_cons]
+    intro hd
+    rcases (Nat.Prime.dvd_mul Nat.prime_two).1 hd with h | h
+    · have := Nat.prime_two.dvd_of_dvd_pow h
+      have := (Nat.prime_dvd_prime_iff_eq Nat.prime_two hx.2.2).1 this
+      omega
+    · exact ih hg.tail h
+
+namespace PrimeFactors.WF
+variable {f : PrimeFactors}
+
+theorem odd_part (h : f.WF) : ¬ 2 ∣ 3 ^ f.p3 * prodOf f.others := by
+  intro hd
+  rcases (Nat.Prime.dvd_mul Nat.prime_two).1 hd with h' | h'
+  · have := Nat.prime_two.dvd_of_dvd_pow h'
+    omega
+  · exact not_two_dvd_prodOf _ h.entries h'
+
+theorem strip_two (h : f.WF) : strip 2 f.n = (3 ^ f.p3 * prodOf f.others, f.p2) := by
+  have hpos : 0 < 3 ^ f.p3 * prodOf f.others :=
+    Nat.mul_pos (Nat.pow_pos (by omega)) (prodOf_pos _ h.entries)
+  have := strip_eq 2 (by omega) (3 ^ f.p3 * prodOf f.others) f.p2 hpos h.odd_part
+  rw [← this, h.prod_eq]; congr 1; ring
+
+theorem trailingZeros_eq (h : f.WF) : trailingZeros f.n = f.p2 := by
+  unfold trailingZeros; rw [h.strip_two]
+
+theorem removeFactors_two (h : f.WF) (hp2 : 0 < f.p2)
+    (hne : ¬ (f.others.isEmpty = true ∧ f.p3 < 2)) :
+    ∃ g, f.removeFactors ⟨2, f.p2⟩ = .ok (some g) ∧ g.WF ∧ 2 ^ f.p2 * g.n = f.n ∧ 1 < g.n := by
+  have hodd := h.odd_part
+  have hn : f.n / 2 ^ f.p2 = 3 ^ f.p3 * prodOf f.others := by
+    rw [h.prod_eq, Nat.mul_assoc, Nat.mul_div_cancel_left _ (Nat.pow_pos (by omega))]
+  have hgt : 1 < 3 ^ f.p3 * prodOf f.others := by
+    have h3pos : 0 < 3 ^ f.p3 := Nat.pow_pos (by omega)
+    have hPpos := prodOf_pos _ h.entries
+    by_cases hnil : f.others = []
+    · have hp3 : 2 ≤ f.p3 := by
+        by_contra hc; apply hne; rw [hnil]; simp; omega
+      have : 3 ^ 2 ≤ 3 ^ f.p3 := Nat.pow_le_pow_right (by omega) hp3
+      rw [hnil]; simp; omega
+    · have := five_le_prodOf _ h.entries hnil
+      nlinarith
+  unfold PrimeFactors.removeFactors
+  dsimp only
+  rw [if_neg (by omega), if_pos rfl, if_neg (by omega)]
+  have hgt' : f.n / 2 ^ f.p2 > 1 := by rw [hn]; exact hgt
+  rw [if_pos hgt']
+  refine ⟨_, rfl, ⟨?_, ?_, h.entries, h.sorted, ?_, ?_⟩, ?_, hgt'⟩
+  · dsimp only; omega
+  · dsimp only; rw [hn]; simp
+  · dsimp only; have := h.total_eq; omega
+  · dsimp only
+    have := h.distinct_eq
+    rw [if_pos hp2] at this
+    simp only [Nat.sub_self, if_true, gt_iff_lt, Nat.lt_irrefl, if_false]
+    rw [this]; simp only [gt_iff_lt]; omega
+  · dsimp only; rw [hn, h.prod_eq]; ring
+
+end PrimeFactors.WF
 
 end RFV
